@@ -224,8 +224,10 @@ func (i *lifeIface) VarlinkDispatch(ctx context.Context, c varlink.Call, methodn
 	}
 	return c.ReplyMethodNotFound(ctx, methodname)
 }
-func (i *lifeIface) VarlinkGetName() string        { return i.name }
-func (i *lifeIface) VarlinkGetDescription() string { return "interface " + i.name + "\nmethod Fail() -> ()\n" }
+func (i *lifeIface) VarlinkGetName() string { return i.name }
+func (i *lifeIface) VarlinkGetDescription() string {
+	return "interface " + i.name + "\nmethod Fail() -> ()\n"
+}
 
 var lifeStackBuf = make([]byte, 1<<20)
 
